@@ -25,10 +25,11 @@ const (
 	symS          // 7 byte ICMP message with type echo reply and the first id (malformed)
 	symX1         // the first id in a message whose type is the OTHER family's echo reply number (ICMPv6 type 0 / ICMPv4 type 129): not an echo reply
 	symR1o        // echo reply carrying the first id, sent from ANOTHER address of the replier (multicast ping, multi-homed host): completes the ping
+	symR1e        // echo reply carrying the first id and no data at all (an 8 byte ICMP message): completes the ping
 	nSyms
 )
 
-var symNames = []string{"reply(id1)", "reply(id2)", "reply(foreign)", "request(id1)", "short(id1)", "othertype(id1)", "reply(id1,other source)"}
+var symNames = []string{"reply(id1)", "reply(id2)", "reply(foreign)", "request(id1)", "short(id1)", "othertype(id1)", "reply(id1,other source)", "reply(id1,no data)"}
 
 type pingEvent struct {
 	kind string // sent, returned, delivered
@@ -162,6 +163,16 @@ func c19ScenarioF(v6second bool, seq []int, failAt int) *concScenario {
 						if r, ok = pick(0); ok {
 							f = mk(r, 129, 0, r.id, false)
 						}
+					case symR1e:
+						if r, ok = pick(0); ok {
+							id = int(r.id)
+							if r.six {
+								f = refnet.Eth(env.HostMAC, env.MAC1, 0x86dd, refnet.IP6(lla1, env.HostLLA, 58, 64, refnet.ICMP6(lla1, env.HostLLA, 129, 0, refnet.EchoBody(r.id, 1, nil)), -1))
+							} else {
+								m := refnet.ICMP4(0, 0, [4]byte{byte(r.id >> 8), byte(r.id), 0, 1}, nil)
+								f = refnet.Eth(env.HostMAC, env.MAC1, 0x0800, refnet.IP4(ip4a, ip4host, 1, m, refnet.IP4Opt{}))
+							}
+						}
 					case symR1o:
 						if r, ok = pick(0); ok {
 							id = int(r.id)
@@ -254,7 +265,7 @@ func c19ScenarioF(v6second bool, seq []int, failAt int) *concScenario {
 			for _, sn := range sents {
 				early, late := false, false
 				for _, e := range log.ev {
-					if e.kind == "delivered" && e.id == sn.id && (e.who == symR1 || e.who == symR2 || e.who == symR1o) {
+					if e.kind == "delivered" && e.id == sn.id && (e.who == symR1 || e.who == symR2 || e.who == symR1o || e.who == symR1e) {
 						if e.t < sn.t+int64(2*time.Second) {
 							early = true
 						} else {
@@ -281,7 +292,7 @@ func c19ScenarioF(v6second bool, seq []int, failAt int) *concScenario {
 			for _, sn := range sents {
 				early, any := false, false
 				for _, e := range log.ev {
-					if e.kind == "delivered" && e.id == sn.id && (e.who == symR1 || e.who == symR2 || e.who == symR1o) {
+					if e.kind == "delivered" && e.id == sn.id && (e.who == symR1 || e.who == symR2 || e.who == symR1o || e.who == symR1e) {
 						any = true
 						if e.t < sn.t+int64(2*time.Second) {
 							early = true
@@ -369,7 +380,7 @@ func c19Scenarios(maxLen int) []*concScenario {
 
 func c19Run(c *core.Ctx, args []string) {
 	c.Res.Level = "model_checking"
-	c.Res.Rule = "for two concurrent pings (IPv4+IPv4 and IPv4+IPv6, timeout 2s) and every sequence of <=2 (thorough <=3) frames from {reply(id1), reply(id2), reply(foreign id), request(id1), 7-byte reply(id1), id1 in a message typed with the other family's echo-reply number, reply(id1) from another source address} delivered by one packet-loop thread (ids are read from the captured requests; WriteTo and the timer firing are scheduling points): stateless DFS over all schedules up to the deviation bound. Oracle per execution: a request whose matching reply was parsed before its timer fired must complete with nil, a request that never had a matching reply must return ErrTimeout, identifiers distinct, no panic, no waiter left; plus 12 scenarios in which the first or second transmission fails and 2 scenarios with four concurrent pings one of whose transmissions fails (the send-error path must not leave a waiter behind). distinct = distinct observation vectors"
+	c.Res.Rule = "for two concurrent pings (IPv4+IPv4 and IPv4+IPv6, timeout 2s) and every sequence of <=2 (thorough <=3) frames from {reply(id1), reply(id2), reply(foreign id), request(id1), 7-byte reply(id1), id1 in a message typed with the other family's echo-reply number, reply(id1) from another source address, reply(id1) without data} delivered by one packet-loop thread (ids are read from the captured requests; WriteTo and the timer firing are scheduling points): stateless DFS over all schedules up to the deviation bound. Oracle per execution: a request whose matching reply was parsed before its timer fired must complete with nil, a request that never had a matching reply must return ErrTimeout, identifiers distinct, no panic, no waiter left; plus 12 scenarios in which the first or second transmission fails and 2 scenarios with four concurrent pings one of whose transmissions fails (the send-error path must not leave a waiter behind). distinct = distinct observation vectors"
 	c.Res.Assumptions = []string{"a reply delivered after the timer fired but before the pinging goroutine ran may legitimately complete the ping or not (both accepted)", "send errors: only 'the first/second transmission fails' is injected, as a one-step environment deviation", "a reply of the other address family carrying the right identifier is not in the alphabet (the statement does not decide it)"}
 	maxLen, bound := 2, 1
 	if c.Thorough() {
